@@ -78,7 +78,7 @@ class Subject:
         return int(total)
 
 
-def observe_generation(obj, rng, budget=None, limit_s=90, **kw):
+def observe_generation(obj, rng, budget=None, limit_s=30, **kw):
     """Run obj.generate(rng=rng) under the monitors.  Returns dict(status, mol, exc, events, violations)."""
     trace.reset()
     _budget["left"] = budget
